@@ -460,6 +460,11 @@ def thread_violation(s, body, triggers, kind, detail, files_tag):
 
 
 def thread_worker(task):
+    if os.environ.get("VERIF_FAULTHANDLER"):  # (diagnostic aid: kill -USR1 <worker> prints the stacks of all its threads)
+        import faulthandler
+        import signal
+
+        faulthandler.register(signal.SIGUSR1, all_threads=True)
     C = Counter()
     body, triggers, bound = task["body"], task["triggers"], task["bound"]
     install_coop_lock(False)
@@ -686,7 +691,8 @@ def main(run):
     if not quick:
         tasks.append({"part": "threads", "body": "one_attr", "triggers": ["instantiate", "instantiate"], "bound": 2})
     tasks.append({"part": "threads", "body": "one_attr", "triggers": ["instantiate", "instantiate", "meta_then_helper"], "bound": 0 if quick else 1})
-    tasks.append({"part": "threads", "body": "mutual_reference", "triggers": ["instantiate", "instantiate_other"], "bound": 1})
+    tasks.append({"part": "threads", "body": "mutual_reference", "triggers": ["instantiate", "instantiate_other"],
+                  "bound": int(os.environ.get("VERIF_C19_MUTUAL_BOUND", "1"))})
     tasks.append({"part": "threads", "body": "mutual_reference", "triggers": ["instantiate_other", "meta_then_helper"], "bound": 1})
     if not quick:
         for b in ("attr_factory", "inherit_lazy_parent"):
